@@ -1811,3 +1811,61 @@ for _p, _rs in (("C06", {"M18", "M1"}), ("C05", {"I11"}), ("C11", {"H19"})):
         B("inputs-all-read-from-the-first-slot", set(_rs),
           (MW, "                               unwrap=unwrap)),\n                                         prefix='  ')\n            arg_id += 1\n", "                               unwrap=unwrap)),\n                                         prefix='  ')\n")),
     ]
+
+# ---- round 13: the string converters and checkScalar run by the interpreter (K15, K6), seeds s13-C18-*
+_US_A = "  char *data = mxArrayToString(array);\n  if (data==NULL) error(\"unwrap<string>: not a character array\");\n  string str(data);\n  mxFree(data);\n  return str;\n"
+_US_FAST = ("  if (mxGetClassID(array)!=mxCHAR_CLASS) error(\"unwrap<string>: not a character array\");\n  char buffer[256];\n"
+            "  const size_t length = mxGetM(array)*mxGetN(array);\n  if (length%ssizeof(buffer)) {\n    mxGetString(array, buffer, sizeof(buffer));\n    return string(buffer);\n  }\n") + _US_A
+_CS_A = "  int m = mxGetM(array), n = mxGetN(array);\n  if (m!=1 || n!=1)\n"
+TABLE["C18"] += [
+    B("short-strings-read-into-a-buffer-one-too-small", {"K15"}, (H, _US_A, _US_FAST % "<=")),
+    N("short-strings-read-into-a-buffer-that-fits", (H, _US_A, _US_FAST % "<")),
+    B("string-read-with-the-column-count-only", {"K15"},
+      (H, _US_A, "  if (!mxIsChar(array)) error(\"unwrap<string>: not a character array\");\n  size_t n = mxGetN(array);\n  char* buf = new char[n+1];\n"
+                 "  mxGetString(array, buf, n+1);\n  string str(buf);\n  delete[] buf;\n  return str;\n")),
+    N("string-read-with-the-element-count", 
+      (H, _US_A, "  if (!mxIsChar(array)) error(\"unwrap<string>: not a character array\");\n  size_t n = mxGetNumberOfElements(array);\n  char* buf = new char[n+1];\n"
+                 "  mxGetString(array, buf, n+1);\n  string str(buf);\n  delete[] buf;\n  return str;\n")),
+    B("string-buffer-without-room-for-the-terminator", {"K15"},
+      (H, _US_A, "  if (!mxIsChar(array)) error(\"unwrap<string>: not a character array\");\n  size_t n = mxGetNumberOfElements(array);\n  char* buf = new char[n];\n"
+                 "  mxGetString(array, buf, n);\n  string str(buf, n);\n  delete[] buf;\n  return str;\n")),
+    B("string-guard-dropped-with-the-null-check", {"K15"},
+      (H, "  if (data==NULL) error(\"unwrap<string>: not a character array\");\n  string str(data);", "  string str(data ? data : \"\");")),
+    B("scalar-check-on-the-first-two-extents", {"K6"},
+      (H, _CS_A, "  const mwSize* dims = mxGetDimensions(array);\n  if (dims[0]!=1 || dims[1]!=1)\n")),
+    N("scalar-check-on-the-extents-and-their-number",
+      (H, _CS_A, "  const mwSize* dims = mxGetDimensions(array);\n  if (mxGetNumberOfDimensions(array)!=2 || dims[0]!=1 || dims[1]!=1)\n")),
+    B("scalar-check-lets-empty-arrays-through", {"K6"}, (H, _CS_A, "  if (mxGetNumberOfElements(array)>1)\n")),
+    N("scalar-check-by-element-count", (H, _CS_A, "  if (mxGetNumberOfElements(array)!=1)\n")),
+]
+TABLE["C17"] += [
+    B("missing-file-tested-instead-of-caught", {"Q3"},
+      (XP, "        try:\n            return ET.parse(xml_file)\n        except FileNotFoundError:\n            print(f\"Warning: XML file '{xml_file}' not found.\")\n            return None\n        except OSError:\n            print(f\"Warning: XML file '{xml_file}' could not be read.\")\n            return None\n",
+       "        if not os.path.exists(xml_file):\n            print(f\"Warning: XML file '{xml_file}' not found.\")\n            return None\n        try:\n            return ET.parse(xml_file)\n")),
+    N("missing-file-tested-and-still-caught",
+      (XP, "        try:\n            return ET.parse(xml_file)\n        except FileNotFoundError:\n",
+       "        if not os.path.exists(xml_file):\n            print(f\"Warning: XML file '{xml_file}' not found.\")\n            return None\n        try:\n            return ET.parse(xml_file)\n        except FileNotFoundError:\n")),
+]
+TABLE["C16"] += [
+    B("submodule-run-renames-the-wrapper", {"Y9", "Y2", "Y7"},
+      (PW, "        module_name = Path(source).stem\n\n        # Read in the complete interface (.i) file", "        module_name = self.module_name = Path(source).stem\n\n        # Read in the complete interface (.i) file")),
+    B("script-resolves-links-in-the-source-list", {"Y3"},
+      ("scripts/pybind_wrap.py", "        sources = args.src.split(';')\n", "        sources = [os.path.realpath(src) for src in args.src.split(';')]\n"),
+      ("scripts/pybind_wrap.py", "import argparse\n", "import argparse\nimport os.path\n")),
+    N("script-makes-the-source-list-absolute",
+      ("scripts/pybind_wrap.py", "        sources = args.src.split(';')\n", "        sources = [os.path.abspath(src) for src in args.src.split(';')]\n"),
+      ("scripts/pybind_wrap.py", "import argparse\n", "import argparse\nimport os.path\n")),
+    B("script-drops-repeated-sources", {"Y3"},
+      ("scripts/pybind_wrap.py", "        sources = args.src.split(';')\n", "        sources = list(dict.fromkeys(args.src.split(';')))\n")),
+    B("script-sorts-the-additional-sources", {"Y3"},
+      ("scripts/pybind_wrap.py", "        sources = args.src.split(';')\n", "        sources = args.src.split(';')\n        sources = sources[:1] + sorted(sources[1:])\n")),
+]
+TABLE["C14"] += [
+    B("submodule-run-renames-the-wrapper", {"R11"},
+      (PW, "        module_name = Path(source).stem\n\n        # Read in the complete interface (.i) file", "        module_name = self.module_name = Path(source).stem\n\n        # Read in the complete interface (.i) file")),
+    B("ignore-list-grows-while-wrapping", {"R11"},
+      (PW, "        module = parser.Module.parseString(content)\n", "        module = parser.Module.parseString(content)\n        self.ignore_classes.extend(c for c in self._serializing_classes)\n")),
+    N("script-makes-the-source-list-absolute",
+      ("scripts/pybind_wrap.py", "        sources = args.src.split(';')\n", "        sources = [os.path.abspath(src) for src in args.src.split(';')]\n"),
+      ("scripts/pybind_wrap.py", "import argparse\n", "import argparse\nimport os.path\n")),
+]
